@@ -94,6 +94,20 @@ MaxS(S) == CHOOSE x \in S : \A y \in S : y <= x
 MinI(a, b) == IF a < b THEN a ELSE b
 RemoveAt(s, i) == SubSeq(s, 1, i - 1) \o SubSeq(s, i + 1, Len(s))
 
+(* amoco slices a `mem` expression into a NEW, smaller mem expression (mem.__getitem__ / mem.bytes,      *)
+(* expressions.py:1379-1403): a run of consecutive bytes of one load node that is not the whole node    *)
+(* becomes a node of its own (same mods, displacement moved to the first byte of the run in memory).    *)
+(* Same meaning; it matters for what amoco's own evaluation does with the node later.                  *)
+RECURSIVE Renode(_)
+Renode(val) ==
+  IF val = <<>> THEN <<>>
+  ELSE IF val[1].t # "l" THEN <<val[1]>> \o Renode(Tail(val))
+  ELSE LET nd == val[1].ld k0 == val[1].k
+           m  == MaxS({l \in 1..Len(val) : \A j \in 1..l : val[j].t = "l" /\ val[j].ld = nd /\ val[j].k = k0 + j - 1})
+           nd2 == IF k0 = 0 /\ m = nd.n THEN nd
+                  ELSE [nd EXCEPT !.d = nd.d + (IF nd.en = 1 THEN k0 ELSE nd.n - (k0 + m)), !.n = m]
+       IN [j \in 1..m |-> DLd(nd2, j - 1)] \o Renode(SubSeq(val, m + 1, Len(val)))
+
 EmptyMs == [map |-> <<>>, lastw |-> 0, zones |-> <<>>, nw |-> 0]
 ZGet(zs, key) == IF key \in DOMAIN zs THEN zs[key] ELSE <<>>
 ZPut(zs, key, z) == [k \in (DOMAIN zs) \cup {key} |-> IF k = key THEN z ELSE zs[k]]
@@ -133,8 +147,8 @@ SetPtr(ms, loc, val, en, Q, cf) ==
       merge == keyed /\ i > 0 /\ Len(old) > Len(val)
       r     == IF merge
                THEN (IF en = 1 \/ "MergeLE" \in Q
-                     THEN val \o SubSeq(old, Len(val) + 1, Len(old))
-                     ELSE SubSeq(old, 1, Len(old) - Len(val)) \o val)
+                     THEN val \o Renode(SubSeq(old, Len(val) + 1, Len(old)))
+                     ELSE Renode(SubSeq(old, 1, Len(old) - Len(val))) \o val)
                ELSE val
       z2    == WriteZ(ZGet(ms.zones, ZKey(loc)), ZAdr(loc), r, en, ms.nw + 1)
       map1  == IF keyed /\ i > 0 THEN RemoveAt(ms.map, i) ELSE ms.map         \* del self.__map[l]
@@ -183,7 +197,7 @@ PartsVal(P, cur, z, loc, A, en, Q) ==     \* P in read order; cur = value bytes 
                    ELSE MemVal(loc.b, loc.d + p.lo, p.len, en))
              ELSE LET c0 == z[A + p.lo]
                       ord == IF c0.raw THEN en ELSE c0.e
-                  IN [j \in 1..p.len |-> z[A + (IF ord = 1 THEN p.lo + j - 1 ELSE p.lo + p.len - j)].d]
+                  IN Renode([j \in 1..p.len |-> z[A + (IF ord = 1 THEN p.lo + j - 1 ELSE p.lo + p.len - j)].d])
        IN bytes \o PartsVal(Tail(P), cur + p.len, z, loc, A, en, Q)
 MemRead(ms, loc, n, en, Q) ==
   LET z == ZGet(ms.zones, ZKey(loc)) A == ZAdr(loc)
